@@ -9,8 +9,10 @@ Models (Model/ShortestPaths.lean): `floydWarshall` (the code in /repo now), `flo
 `dijkstra`/`johnsons` over an abstract min-selection, `layoutD`.
 -/
 import AdaptaVerif.Lemmas.ApspCheck
+import AdaptaVerif.Lemmas.ApspComplete
 import AdaptaVerif.Lemmas.ApspFWInit
 import AdaptaVerif.Lemmas.ApspLayout
+import AdaptaVerif.Lemmas.PairingHeap
 namespace AdaptaVerif.Props.C17
 open AdaptaVerif.Model.ShortestPaths AdaptaVerif.Spec.Apsp AdaptaVerif.Check.Apsp AdaptaVerif.Lemmas.Apsp
 
@@ -51,6 +53,23 @@ example : checkApsp ⟨5, [(0, 1, 0), (1, 2, 0), (2, 0, 0), (2, 3, 3/8), (3, 2, 
       if i = 4 ∨ j = 4 then (if i = j then some 0 else none)
       else if i = j then some 0
       else if i = 3 ∨ j = 3 then some (3/8) else some 0) = true := by decide +kernel
+
+/-- (1') Completeness of the check: the exact distance matrix of a valid graph is always
+    accepted — so a rejection (driver verdict SPECFAIL) proves that the examined matrix is not the
+    shortest-path matrix. -/
+theorem checkApsp_complete (g : Graph) (D : Nat → Nat → Dist) (hv : Valid g) (h : IsApsp g D) :
+    checkApsp g D = true := by
+  unfold checkApsp
+  simp only [Bool.and_eq_true]
+  refine ⟨⟨valid_validGraph hv, ?_⟩, isApsp_symmetric hv h⟩
+  rw [List.all_eq_true]
+  intro i hi
+  have hi' := List.mem_range.mp hi
+  exact sourceOk_complete hv hi' (fun j hj => h i j hi' hj)
+
+/-- the check decides the specification -/
+theorem checkApsp_iff (g : Graph) (D : Nat → Nat → Dist) : checkApsp g D = true ↔ Valid g ∧ IsApsp g D :=
+  ⟨fun h => ⟨(checkApsp_sound g D h).1, (checkApsp_sound g D h).2.1⟩, fun h => checkApsp_complete g D h.1 h.2⟩
 
 /-- (2) `floyd_warshall` as it is coded now (in-place triple loop; initialisation
     `if (u != v && w < D[u][v]) D[u][v] = D[v][u] = w`) computes exact shortest paths on EVERY valid
@@ -152,5 +171,57 @@ theorem layoutD_correct (sel : Selector) (hsel : SelSpec sel) (n : Nat) (es : Li
   unfold scaleEntry
   rw [if_neg hij]
   cases (johnsons sel (layoutGraph n es lens)).get i j <;> rfl
+
+/-! ### (4) the pairing heap refines a multiset -/
+
+section Heap
+open AdaptaVerif.Model.PairingHeap AdaptaVerif.Lemmas.PairingHeap
+
+/-- Over ALL legal operation sequences (insert / deleteMin / decreaseKey to a not-larger key /
+    merge) starting from the empty heap, the model of `PairingHeap<T>` stays a heap-ordered root,
+    and `findMin` (= what `extractMin` returns) is an element of the heap with minimal key. -/
+theorem pairingheap_findMin_is_minimum (ops : List Op) (hl : LegalSeq .nil ops) (k : Rat) (i : Nat)
+    (hf : findMin (ops.foldl applyOp .nil) = some (k, i)) :
+    (k, i) ∈ elems (ops.foldl applyOp .nil) ∧ ∀ x ∈ elems (ops.foldl applyOp .nil), k ≤ x.1 := by
+  have hg := good_run ops .nil ⟨trivial, ordered_nil⟩ hl
+  exact findMin_spec hg.1 hg.2 hf
+
+/-- non-vacuity: a legal sequence with a merge, a decreaseKey and equal keys -/
+example : LegalSeq .nil [.insert 3 0, .insert 1 1, .merge [(2, 2), (1, 3)], .decreaseKey 0 (1/2), .deleteMin] ∧
+    findMin ([Op.insert 3 0, .insert 1 1, .merge [(2, 2), (1, 3)], .decreaseKey 0 (1/2), .deleteMin].foldl applyOp .nil)
+      = some (1, 1) := by
+  constructor
+  · simp only [LegalSeq, Legal, and_true, true_and]
+    decide +kernel
+  · decide +kernel
+
+/-- The stored multiset changes exactly as the multiset operations prescribe (`List.Perm` on the
+    `(key, id)` pairs): insert adds, deleteMin removes the root pair, merge unites, decreaseKey
+    replaces one pair `(old, id)` by `(new, id)` (or leaves the heap alone if `id` is absent). -/
+theorem pairingheap_refines_multiset (h : PTree) (hg : Good h) :
+    (∀ k i, (elems (Model.PairingHeap.insert h k i)).Perm ((k, i) :: elems h)) ∧
+    (∀ k i, findMin h = some (k, i) → (elems h).Perm ((k, i) :: elems (deleteMin h))) ∧
+    (findMin h = none ↔ elems h = []) ∧
+    (∀ items, (elems (merge h (build items))).Perm (elems h ++ elems (build items))) ∧
+    (∀ i nk, decreaseKey h i nk = h ∨
+      ∃ ok rest, (elems h).Perm ((ok, i) :: rest) ∧ (elems (decreaseKey h i nk)).Perm ((nk, i) :: rest)) := by
+  refine ⟨fun k i => (insert_spec hg.1 hg.2 k i).1, ?_, findMin_none, ?_, ?_⟩
+  · intro k i hf
+    cases h with
+    | nil => simp [findMin] at hf
+    | node kh ih c s =>
+      have hs : s = .nil := hg.1
+      subst hs
+      simp only [findMin, Option.some.injEq, Prod.mk.injEq] at hf
+      obtain ⟨rfl, rfl⟩ := hf
+      exact (deleteMin_spec hg.2).1
+  · intro items
+    exact (merge_spec hg.1 hg.2 (good_build items).1 (good_build items).2).1
+  · intro i nk
+    rcases decreaseKey_spec hg.1 hg.2 i nk with e | ⟨ok, rest, h1, h2, _, _⟩
+    · exact Or.inl e
+    · exact Or.inr ⟨ok, rest, h1, h2⟩
+
+end Heap
 
 end AdaptaVerif.Props.C17
